@@ -122,7 +122,7 @@ func emitClearsig(g *core.G, input string, kr []*openpgp.Entity, hasKr bool) {
 func streamClearsig(g *core.G) {
 	r := g.R
 	ks := testKeys()
-	n := g.N(25, 600)
+	n := g.N(25, 400)
 	for i := 0; i < n; i++ {
 		// a small deb822 document
 		var doc strings.Builder
@@ -159,9 +159,11 @@ func streamClearsig(g *core.G) {
 		law(signed, nil, false, "none", "accept") // nil keyring: unverified pass-through, no signer
 		law(text, krIn, true, "none", "unsigned")
 		// every kind of single-byte damage, at sampled (quick) or all (thorough) positions
-		step := 1
-		if !g.Thorough {
-			step = 1 + len(signed)/25
+		// every offset for the first documents of a thorough run, ~25 sampled offsets otherwise
+		// (the operation lines carry document, keyring and decoded block: memory is the limit)
+		step := 1 + len(signed)/25
+		if g.Thorough && i < 10 {
+			step = 1
 		}
 		bodyStart := strings.Index(signed, "\n\n") + 2
 		sigStart := strings.Index(signed, "-----BEGIN PGP SIGNATURE-----")
@@ -190,7 +192,7 @@ func streamClearsig(g *core.G) {
 				if !strings.HasPrefix(bad, "-----BEGIN PGP ") {
 					expect = "unsigned" // no longer a clearsigned document: read as plain text, no signer
 				}
-				law(bad, krBoth, true, sid, expect)
+				law(bad, krIn, true, sid, expect)
 			}
 		}
 		// splices of foreign text before, inside and after the armor
